@@ -172,6 +172,31 @@ def run_public(case, failures, hsh):
                     failures.append(Fail(f'{site}|observed-statistic-differs-from-definition|{cls}',
                                          f'{test}: observed_statistic={got!r}, definition gives {want!r} (rates {vr}, counts {vc})', rep))
                     continue
+                # injected random numbers: EVERY tuple of interval midpoints (two draws may fall into the same bin, the simulated
+                # catalog then holds two events in one bin and must still be scored by activity only)
+                if simulate and 1 <= nact <= 2:
+                    tuples = list(itertools.product(mids, repeat=nact))
+                    rn = numpy.array(tuples, dtype=float).reshape(len(tuples), nact)
+                    try:
+                        with Spy(mod) as spy2:
+                            res2 = fn(fc, cat, num_simulations=len(tuples), random_numbers=rn)
+                        evals += len(tuples)
+                        td2 = [float(x) for x in res2.test_distribution]
+                        for t, call, entry in zip(tuples, spy2.calls, td2):
+                            simc = [int(x) for x in call['out']]
+                            if test == 'Br':
+                                sw, sm = rs.brier(vr, simc), 2.0
+                            else:
+                                sw, sm = ref_binary(vr, simc)
+                            if not same(entry, sw, sm):
+                                failures.append(Fail(f'{site}|test-distribution-entry-differs-from-score-of-simulated-catalog|injected-draws',
+                                                     f'{test}: injected draws {list(t)} -> simulated counts {simc}, entry {entry!r}, definition gives {sw!r} (rates {vr})', rep))
+                                break
+                        want_q = rs.quantile_le(td2, float(res2.observed_statistic))
+                        if float(res2.quantile) != want_q:
+                            failures.append(Fail(f'{site}|quantile-not-fraction-of-sims-le-observed|injected-draws', f'{res2.quantile} vs {want_q}', rep))
+                    except Exception as e:
+                        failures.append(Fail(f'{site}|{type(e).__name__}|injected-draws', f'{type(e).__name__}: {e} rates={rates} counts={counts}', rep))
                 if simulate and spy.calls:
                     sim = [int(x) for x in spy.calls[0]['out']]
                     td = [float(x) for x in res.test_distribution]
